@@ -421,6 +421,18 @@ __fixup_fst(struct dseq_clo_s *clo)
 
 	/* assume clo->dir has been computed already */
 	old = tmp = clo->lst;
+	if (dt_sandwich_only_t_p(tmp) && clo->dir) {
+		/* times run around the clock, when LAST isn't beyond FIRST
+		 * it is reached on the day after (before), see __in_range_p() */
+		const int cmp = dt_tcmp(clo->lst.t, clo->fst.t);
+
+		if (clo->dir > 0 && cmp <= 0) {
+			tmp.d.u = 1U;
+		} else if (clo->dir < 0 && cmp >= 0) {
+			tmp.d.u = (uint32_t)-1;
+		}
+		old = tmp;
+	}
 	date_neg_dur(clo->ite, clo->nite);
 	while (__in_range_p(tmp, clo)) {
 		old = tmp;
